@@ -116,9 +116,9 @@ def make_state(doc, state):
         spelled = [oid.upper(), "{%s}" % oid, "urn:uuid:" + oid, oid.replace("-", "")][len(secs) % 4]
         p.new_id(spelled)
     elif state in ("many-warnings-then-error", "many-errors"):
-        # a long issue list: 30 Sections that each draw a warning ahead of the one error / 30 errors
-        for i in range(30):
-            s_ = odml.Section("bulk%02d" % i, "n.s." if state.startswith("many-warnings") else "t")
+        # a long issue list: 130 Sections that each draw a warning ahead of the one error / 30 errors
+        for i in range(130 if state.startswith("many-warnings") else 30):
+            s_ = odml.Section("bulk%03d" % i, "n.s." if state.startswith("many-warnings") else "t")
             doc.insert(0, s_)
             if state == "many-errors":
                 s_.type = None
